@@ -55,3 +55,26 @@ Proof.
   intros a H. assert (F : forallb alpha_ok (upto 256) = true) by (vm_compute; reflexivity).
   rewrite forallb_forall in F. apply F. apply in_upto. exact H.
 Qed.
+
+(* processDeclarations calls insertPrefixedDeclaration only for the keys of
+   cssPrefixTable (regenerated from source, translator t5prefix); that function
+   overwrites the LAST rule and appends one.  None of those keys is a property a
+   box / border-radius tracker handles, so the step never touches a tracked
+   declaration: for the trackers it is an "other property" step (KOther). *)
+From V Require Import gen.CssPrefixGen.
+Definition str (s : list Z) := s.
+Definition trackedProps : list (list Z) :=
+  [ [68;77;97;114;103;105;110]; [68;77;97;114;103;105;110;84;111;112]; [68;77;97;114;103;105;110;82;105;103;104;116];
+    [68;77;97;114;103;105;110;66;111;116;116;111;109]; [68;77;97;114;103;105;110;76;101;102;116];
+    [68;80;97;100;100;105;110;103]; [68;80;97;100;100;105;110;103;84;111;112]; [68;80;97;100;100;105;110;103;82;105;103;104;116];
+    [68;80;97;100;100;105;110;103;66;111;116;116;111;109]; [68;80;97;100;100;105;110;103;76;101;102;116];
+    [68;73;110;115;101;116]; [68;84;111;112]; [68;82;105;103;104;116]; [68;66;111;116;116;111;109]; [68;76;101;102;116];
+    [68;66;111;114;100;101;114;82;97;100;105;117;115];
+    [68;66;111;114;100;101;114;84;111;112;76;101;102;116;82;97;100;105;117;115]; [68;66;111;114;100;101;114;84;111;112;82;105;103;104;116;82;97;100;105;117;115];
+    [68;66;111;114;100;101;114;66;111;116;116;111;109;82;105;103;104;116;82;97;100;105;117;115]; [68;66;111;114;100;101;114;66;111;116;116;111;109;76;101;102;116;82;97;100;105;117;115] ].
+Theorem prefix_table_disjoint_from_trackers_all :
+  forall p, In p cssPrefixedProps -> existsb (zlist_eqb p) trackedProps = false.
+Proof.
+  assert (F : forallb (fun p => negb (existsb (zlist_eqb p) trackedProps)) cssPrefixedProps = true) by (vm_compute; reflexivity).
+  intros p Hp. rewrite forallb_forall in F. apply negb_true_iff. apply F. exact Hp.
+Qed.
